@@ -19,7 +19,8 @@ ARGS = {
 ACCOUNTS = ["default", "0", "5", "2^31-2", "2^31-1", "2^31", "-1", "x", "+5", " 7", "1_0"]
 BOUNDS = ["-1", "0", "1", "3", "2^31-1", "2^31", "2^31+1", "2^32-2", "2^32-1", "x"]
 FILES = ["none", "absent", "existing", "dir", "symlink-to-file", "dangling-symlink", "parent-missing", "empty-string",
-         "symlink-rel-in-subdir", "symlink-up", "symlink-abs-to-file", "symlink-to-dir", "existing-dotdot", "absent-in-subdir"]
+         "symlink-rel-in-subdir", "symlink-up", "symlink-abs-to-file", "symlink-to-dir", "existing-dotdot", "absent-in-subdir",
+         "absent-trailing-slash", "symlink-loop", "dangling-into-missing-dir"]
 PWS = ["none", "ascii", "nfkd-sensitive", "blank-padded", "empty", "json-like"]
 
 
@@ -106,6 +107,9 @@ def pick(ctx, vecs):
             if v["file"] != "none" or v["account"] != "default" or (v["start"], v["end"]) != ("0", "3"):
                 if (v["start"], v["end"]) == ("0", "3") or v["cmd"] == "from-bip39-seed":
                     keep.append(v)
+        elif v["cmd"] == "new" and v["arg"] == "len-12" and v["file"] != "none" and not v["testnet"] and not v["paranoia"] and v["pw"] == "none" \
+                and not v["help"]:
+            keep.append(v)          # every file-path state with the sub-command that has something to lose
         elif v["file"] == "none" and v["account"] == "default" and (v["start"], v["end"]) == ("0", "3") and not v["testnet"] \
                 and (v["pw"] == "none" or v["arg"] == good.get(v["cmd"])):
             keep.append(v)
